@@ -748,8 +748,8 @@ def _pattern_customs(mc, plan):
 
 
 def _coords(name, n):
-    if name == "tiny":      # the lattice in a very small unit of length (x 2^-34, exact in binary): no absolute threshold may act on lengths
-        return [tuple(c / 17179869184 for c in p) for p in F.sphere_lattice_points(n)]
+    if name == "tiny":      # the moment curve in a very small unit of length (x 2^-34, exact in binary): no absolute threshold may act on lengths
+        return [tuple(c / 17179869184 for c in p) for p in F.moment_curve(n)]     # generic lengths (no ties), tiny unit
     return F.sphere_lattice_points(n) if name == "lattice" else F.moment_curve(n)
 
 
